@@ -306,3 +306,47 @@ theorem extension_eq (p : List Char) :
   cases fileName p <;> rfl
 
 end Superimpose
+
+namespace Superimpose
+
+theorem splitSlash_ne_nil (p : List Char) : splitSlash p ≠ [] := by
+  cases p with
+  | nil => simp [splitSlash]
+  | cons c cs =>
+    unfold splitSlash
+    split
+    · simp
+    · split <;> simp
+
+/-- A path `dir/name` splits into the components of `dir` followed by those of `name`. -/
+theorem splitSlash_append_slash (a b : List Char) :
+    splitSlash (a ++ '/' :: b) = splitSlash a ++ splitSlash b := by
+  induction a with
+  | nil => simp [splitSlash]
+  | cons c cs ih =>
+    by_cases hc : c = '/'
+    · simp [splitSlash, hc, ih]
+    · simp only [List.cons_append, splitSlash, hc, if_false, ih]
+      cases h : splitSlash cs with
+      | nil => exact absurd h (splitSlash_ne_nil cs)
+      | cons x xs => simp
+
+theorem splitSlash_no_slash (n : List Char) (h : '/' ∉ n) : splitSlash n = [n] := by
+  induction n with
+  | nil => rfl
+  | cons c cs ih =>
+    have hc : c ≠ '/' := fun e => h (e ▸ List.mem_cons_self)
+    have hcs : '/' ∉ cs := fun m => h (List.mem_cons_of_mem _ m)
+    simp [splitSlash, hc, ih hcs]
+
+/-- The directory part of a path is irrelevant to `Path::file_name`. -/
+theorem fileName_dir (dir name : List Char) (hs : '/' ∉ name) (h1 : name ≠ [])
+    (h2 : name ≠ ['.']) : fileName (dir ++ '/' :: name) = fileName name := by
+  unfold fileName
+  rw [splitSlash_append_slash, splitSlash_no_slash name hs, List.filter_append]
+  have : List.filter (fun c => decide (c ≠ [] ∧ c ≠ ['.'])) [name] = [name] := by
+    simp [h1, h2]
+  rw [this, List.getLast?_append]
+  simp
+
+end Superimpose
